@@ -54,3 +54,16 @@ Example C19_refuted_instance :
   lower_bound [[(0%nat, 3%Z); (1%nat, 2%Z)]; [(1%nat, 0%Z); (0%nat, 0%Z)]] = Some (total_work [[(0%nat, 3%Z); (1%nat, 2%Z)]; [(1%nat, 0%Z); (0%nat, 0%Z)]]).
 Proof. vm_compute. reflexivity. Qed.
 Print Assumptions C19_finite_refuted.
+
+(* "shorter makespan, higher main term" is FALSE outside classic instances: for a re-entrant routing (a job visits
+   a machine twice) the implementation's lower bound exceeds the sum of all durations, the normalisation
+   T_max - LB is negative and the main term GROWS with the makespan (known finding F-C19-lb-above-tmax; the
+   environment accepts the instance, the C19 check compares finished episodes of one instance). *)
+Example C19_reentrant_lb_above_total :
+  let I := [[(0%nat, 0%Z); (0%nat, 1%Z); (2%nat, 0%Z)]; [(0%nat, 1%Z); (0%nat, 5%Z); (0%nat, 1%Z)]] in
+  lower_bound I = Some 9%Z /\ total_work I = 8%Z.
+Proof. vm_compute. split; reflexivity. Qed.
+Theorem C19_decreasing_refuted_reentrant :
+  exists c, (rc_tmax c < rc_lb c)%Z /\ terminal_term c 13 < terminal_term c 15.
+Proof. exists (mkRCfg 1 (1#1000) (-1) 8 9 6 2). split; [reflexivity|]. vm_compute. reflexivity. Qed.
+Print Assumptions C19_decreasing_refuted_reentrant.
